@@ -352,7 +352,7 @@ def inputs_c07(rng, tier):
                             fr.append(b)
     else:
         for combo in range(1 << 22):
-            b = vel(17, 1 if combo & 1 == 0 or rng.random() < 0.5 else 2)
+            b = vel(17, 1 if rng.random() < 0.5 else 2)
             setf(b, 32 + 13, 22, combo)
             if rng.random() < 0.97:
                 setf(b, 32 + 37, 9, rng.randrange(1, 512))
@@ -407,6 +407,8 @@ def run(prop, tier, seed, rep, extra_inputs=None):
         inputs += extra_inputs
     hx = core.build_hx("std")
     args = ["decode"] + (["--ops"] if prop in ("C01", "C07") else [])
+    if len(inputs) > 400000:
+        return run_batched(prop, tier, rep, hx, args, inputs)
     events = core.run_hx(hx, args, inputs)
     if len(events) != len(inputs):
         raise core.ToolError(f"recorder returned {len(events)} events for {len(inputs)} inputs")
@@ -450,3 +452,37 @@ def run(prop, tier, seed, rep, extra_inputs=None):
     rep.assumptions += ["TLC evaluates spec/Frame.tla (written from the standards' bit assignments) on the recorded bytes of every event",
                         "projection code in harness/hx/src/project.rs only renames fields returned by the library"]
     return events
+
+
+def run_batched(prop, tier, rep, hx, args, inputs, size=250000):
+    """large runs: record and validate slice by slice so that memory stays bounded"""
+    total = accepted = 0
+    summary = {}
+    first = None
+    for off in range(0, len(inputs), size):
+        chunk = inputs[off:off + size]
+        events = core.run_hx(hx, args, chunk, timeout=3000)
+        if len(events) != len(chunk):
+            raise core.ToolError("recorder lost events")
+        verdicts, st, tr = core.validate_events("Trace_Decode", events, f"{prop}-b{off // size}")
+        rep.add_trace_stats(st, tr, len(events))
+        for v in verdicts:
+            ev = events[v["index"]]
+            for owner, field in v["pairs"]:
+                k = f"{owner}|{v['cls']}|{field}"
+                summary.setdefault(k, [0, bytes(ev["bytes"]).hex(), ev.get("out")])[0] += 1
+                rep.mismatch(owner, v["cls"], field, {"kind": "decode", "bytes": ev["bytes"], "hex": bytes(ev["bytes"]).hex(),
+                                                      "observed": ev.get("out"), "outcome": ev.get("outcome")})
+        total += len(events)
+        accepted += sum(1 for e in events if e["out"].get("ok") == 1)
+        if first is None:
+            first = [trim(events[0]), trim(events[-1])]
+        del events
+    import os
+    json.dump(summary, open(os.path.join(core.BUILD, f"last_{prop}_verdicts.json"), "w"), indent=1, sort_keys=True)
+    rep.extra.update({"events": total, "accepted_frames": accepted, "rejected_frames": total - accepted, "batched": True})
+    if tier == "thorough" and prop in EXHAUSTIVE_THOROUGH:
+        rep.exhaustive = True
+        rep.extra["exhaustive_over"] = EXHAUSTIVE_THOROUGH[prop]
+    rep.samples = first
+    rep.assumptions += ["TLC evaluates spec/Frame.tla on the recorded bytes of every event"]
